@@ -148,6 +148,17 @@ def corr(ctx, oracle_only=False):
                     res.violate('density-grows-more-than-nucleation', 'recorded density exceeds previous stored total + nucRate*dt', case,
                                 dens_new, float(xold.sum()) + nr * dt)
                 res.count('step:nucleating' if nr * dt > 0 else 'step:no-nucleation')
+                # ---- the size classes the statistics refer to: centres are the midpoints of the class boundaries in force
+                bnds = np.asarray(co['bounds'][p], dtype=float)
+                if len(bnds) == len(size) + 1:
+                    mid = 0.5 * (bnds[:-1] + bnds[1:])
+                    if not vlib.all_close(size, mid, 1e-12):
+                        i_bad = int(np.argmax(np.abs(np.asarray(size) - mid)))
+                        res.violate('class-centres-not-midpoints', 'the class centres used for the moments (mean radius, volume fraction) are not the '
+                                    'midpoints of the class boundaries: the reported statistics are not moments of the size distribution on its grid',
+                                    dict(case, first_bad_class=i_bad), float(size[i_bad]), float(mid[i_bad]))
+                else:
+                    res.violate('class-centres-not-midpoints', 'number of class centres != number of class boundaries - 1', case, len(size), len(bnds) - 1)
                 # ---- recorded statistics are moments of the processed state
                 m0 = math.fsum(xproc); m1 = math.fsum(float(a) * float(b) for a, b in zip(xproc, size))
                 if not close(dens_new, m0, 1e-9):
